@@ -149,15 +149,15 @@ Qed.
 Section Face.
   Variable o : str -> option rgba.
 
-  Local Notation face_step := (face_step o).
-  Local Notation face_fold := (face_fold o).
+  Local Notation face_step := (face_step o attrs_or).
+  Local Notation face_fold := (face_fold o attrs_or).
   Local Notation face_parse := (face_parse o).
 
   Lemma face_fold_app l1 l2 f :
     face_fold (l1 ++ l2) f = bind (face_fold l1 f) (face_fold l2).
   Proof.
     revert f. induction l1 as [|p l1 IH]; intros f; [reflexivity|].
-    cbn [app FaceStr.face_fold]. destruct (FaceStr.face_step o f p); cbn [bind]; try reflexivity. apply IH.
+    cbn [app FaceStr.face_fold]. destruct (FaceStr.face_step o attrs_or f p); cbn [bind]; try reflexivity. apply IH.
   Qed.
 
   Lemma step_fg f c : rgba_ok c = true ->
@@ -188,7 +188,7 @@ Section Face.
   (* the attribute names, at the level of the bits alone *)
   Definition attr_fold (names : list str) (a : N) : option N :=
     fold_left (fun acc nm => match acc, lookup_lit attr_parse_table nm with
-                             | Some x, Some b => Some (N.lor x b)
+                             | Some x, Some b => Some (attrs_or x b)
                              | _, _ => None
                              end) names (Some a).
 
@@ -203,7 +203,7 @@ Section Face.
 
   Lemma step_name f nm : In nm all_names ->
     exists b, lookup_lit attr_parse_table nm = Some b
-              /\ face_step f nm = Ok {| f_fg := f_fg f; f_bg := f_bg f; f_attrs := N.lor (f_attrs f) b |}.
+              /\ face_step f nm = Ok {| f_fg := f_fg f; f_bg := f_bg f; f_attrs := attrs_or (f_attrs f) b |}.
   Proof.
     intros Hin. pose proof all_names_check as C. rewrite forallb_forall in C. specialize (C nm Hin).
     unfold name_check in C. repeat (apply andb_true_iff in C as [C ?]).
@@ -260,7 +260,7 @@ Section Face.
   Proof.
     destruct f as [fg bg attrs]. unfold face_ok. cbn [f_fg f_bg f_attrs].
     intros H. apply andb_true_iff in H as [H Ha]. apply andb_true_iff in H as [Hfg Hbg].
-    unfold FaceStr.face_parse, face_print, face_pieces. cbn [f_fg f_bg f_attrs].
+    unfold FaceStr.face_parse, face_parse_gen, face_print, face_pieces. cbn [f_fg f_bg f_attrs].
     set (P1 := match fg with Some c => [s2l "fg=" ++ rgba_print c] | None => [] end).
     set (P2 := match bg with Some c => [s2l "bg=" ++ rgba_print c] | None => [] end).
     assert (F1 : Forall (fun p => ~ In 44 p) P1).
@@ -292,6 +292,88 @@ Section Face.
       + apply Forall_app. split; [exact F1|]. apply Forall_app. split; [exact F2 | apply names_chars].
   Qed.
 
+  (* ---------------------------------------------------------- what the parser returns *)
+
+  Lemma attrs_or_closed : forall a b, attrs_ok a = true -> In b (map snd attr_parse_table) ->
+    attrs_ok (attrs_or a b) = true.
+  Proof.
+    assert (H : sweep1 256 (fun a => if attrs_ok a
+                                     then forallb (fun b => attrs_ok (attrs_or a b)) (map snd attr_parse_table)
+                                     else true) = true) by (vm_compute; reflexivity).
+    intros a b Ha Hb. pose proof (sweep1_sound _ _ H a) as S. cbn beta in S. rewrite Ha in S.
+    assert (Hlt : a < 256).
+    { unfold attrs_ok in Ha. apply andb_true_iff in Ha as [_ Ha]. apply N.ltb_lt, Ha. }
+    specialize (S Hlt). rewrite forallb_forall in S. apply S, Hb.
+  Qed.
+
+  Lemma hex_val_small c x : hex_val c = Some x -> x < 16.
+  Proof.
+    unfold hex_val. destruct ((65 <=? c) && (c <=? 70)) eqn:E1; [intros H; injection H as <-; lia|].
+    destruct ((97 <=? c) && (c <=? 102)) eqn:E2; [intros H; injection H as <-; lia|].
+    destruct ((48 <=? c) && (c <=? 57)) eqn:E3; [intros H; injection H as <-; lia | discriminate].
+  Qed.
+
+  Lemma hex_pairs_bytes_n : forall (n : nat) cs l, (length cs <= n)%nat ->
+    hex_pairs cs = Some l -> Forall (fun b => b < 256) l.
+  Proof.
+    induction n as [|n IH]; intros cs l Hn.
+    - destruct cs; [|cbn in Hn; lia]. cbn. intros H. injection H as <-. constructor.
+    - destruct cs as [|a [|b r]]; cbn [hex_pairs]; try discriminate.
+      + intros H. injection H as <-. constructor.
+      + destruct (hex_val a) as [x|] eqn:Ea; [|discriminate]. destruct (hex_val b) as [y|] eqn:Eb; [|discriminate].
+        destruct (hex_pairs r) as [rest|] eqn:Er; [|discriminate]. intros H. injection H as <-.
+        constructor; [|apply (IH r rest); [cbn in Hn; lia | exact Er]].
+        pose proof (hex_val_small _ _ Ea). pose proof (hex_val_small _ _ Eb). lia.
+  Qed.
+
+  Lemma hex_pairs_bytes cs l : hex_pairs cs = Some l -> Forall (fun b => b < 256) l.
+  Proof. apply (hex_pairs_bytes_n (length cs)). lia. Qed.
+
+  (* the external colour parser (names, /alpha) returns byte colours *)
+  Definition oracle_ok : Prop := forall s c, o s = Some c -> rgba_ok c = true.
+
+  Lemma rgba_parse_ok s c : oracle_ok -> rgba_parse o s = Some c -> rgba_ok c = true.
+  Proof.
+    intros Ho. unfold rgba_parse. destruct (existsb (N.eqb 47) s); [apply Ho|].
+    destruct (starts_with 35 s && ((utf8_len s =? 7) || (utf8_len s =? 9))); [|apply Ho].
+    destruct (hex_pairs (tl s)) as [l|] eqn:E; [|discriminate]. pose proof (hex_pairs_bytes _ _ E) as F.
+    destruct l as [|r [|g [|b [|a [|? ?]]]]]; try discriminate; intros H; injection H as <-;
+      unfold rgba_ok; repeat (match goal with H : Forall _ (_ :: _) |- _ => inversion H; clear H; subst end);
+      repeat (apply andb_true_iff; split); apply N.ltb_lt; try assumption; lia.
+  Qed.
+
+  Lemma face_step_ok f p f' : oracle_ok -> face_ok f = true -> face_step f p = Ok f' -> face_ok f' = true.
+  Proof.
+    intros Ho Hf. unfold face_ok in *. apply andb_true_iff in Hf as [Hf Ha]. apply andb_true_iff in Hf as [Hfg Hbg].
+    unfold FaceStr.face_step. destruct (split_eq p) as [k v].
+    destruct (str_eqb (trim k) (s2l "fg")).
+    { destruct (rgba_parse o _) as [c|] eqn:E; [|discriminate]. intros H. injection H as <-. cbn [f_fg f_bg f_attrs].
+      cbn [orgba_ok]. rewrite (rgba_parse_ok _ _ Ho E), Hbg, Ha. reflexivity. }
+    destruct (str_eqb (trim k) (s2l "bg")).
+    { destruct (rgba_parse o _) as [c|] eqn:E; [|discriminate]. intros H. injection H as <-. cbn [f_fg f_bg f_attrs].
+      cbn [orgba_ok]. rewrite (rgba_parse_ok _ _ Ho E), Hfg, Ha. reflexivity. }
+    destruct (lookup_lit attr_parse_table (trim k)) as [b|] eqn:L.
+    { intros H. injection H as <-. cbn [f_fg f_bg f_attrs]. rewrite Hfg, Hbg. cbn [andb].
+      apply attrs_or_closed; [exact Ha|]. apply lookup_lit_In in L. apply in_map_iff. exists (trim k, b). split; [reflexivity | exact L]. }
+    destruct (trim k); [|discriminate]. intros H. injection H as <-. rewrite Hfg, Hbg, Ha. reflexivity.
+  Qed.
+
+  Lemma face_fold_ok l : forall f f', oracle_ok -> face_ok f = true -> face_fold l f = Ok f' -> face_ok f' = true.
+  Proof.
+    induction l as [|p l IH]; intros f f' Ho Hf; cbn [FaceStr.face_fold].
+    - intros H. injection H as <-. exact Hf.
+    - destruct (FaceStr.face_step o attrs_or f p) as [f1| | |] eqn:E; cbn [bind]; try discriminate.
+      apply (IH _ _ Ho). apply (face_step_ok f p f1 Ho Hf E).
+  Qed.
+
+  (* a face the parser produced prints to text that parses back to the same face *)
+  Theorem face_parsed_roundtrip s f : oracle_ok -> face_parse s = Ok f -> face_parse (face_print f) = Ok f.
+  Proof.
+    intros Ho H. apply face_roundtrip. unfold FaceStr.face_parse, face_parse_gen in H.
+    assert (D : face_ok face_default = true) by reflexivity.
+    exact (face_fold_ok _ _ _ Ho D H).
+  Qed.
+
   (* ---------------------------------------------------------- totality *)
 
   Lemma face_step_total f p : no_panic (face_step f p).
@@ -305,7 +387,7 @@ Section Face.
   Lemma face_fold_total l : forall f, no_panic (face_fold l f).
   Proof.
     induction l as [|p l IH]; intros f; [exact I|]. cbn [FaceStr.face_fold].
-    pose proof (face_step_total f p) as T. destruct (FaceStr.face_step o f p); try contradiction; cbn [bind]; [apply IH | exact I].
+    pose proof (face_step_total f p) as T. destruct (FaceStr.face_step o attrs_or f p); try contradiction; cbn [bind]; [apply IH | exact I].
   Qed.
 
   Theorem face_parse_total s : no_panic (face_parse s).
